@@ -641,6 +641,106 @@ def rule_r13(ctx):
         raise AnalysisBroken("no strto* conversion kept in a local found")
 
 
+# ---------------------------------------------------------------------------
+# R14: every component of a clone points into the clone's own storage
+
+
+def rule_r14(ctx):
+    r = ctx.rule("C19.R14", "T11", "a clone is independent of its source: in nni_url_clone_inline every pointer component of the "
+                 "destination that addresses the text (u_buffer in the inline case, u_path, u_hostname, u_userinfo, u_query, "
+                 "u_fragment) is computed from a base inside the destination (dst->u_buffer / dst->u_static) plus an offset taken "
+                 "from the source -- based on the source's buffer the component has the right text while the source lives and "
+                 "dangles once it is freed (u_scheme points into the static scheme table and is shared on purpose)", floor=4)
+    f = ctx.prog.need("nni_url_clone_inline", "core/url.c")
+    if len(f.params) < 2:
+        raise AnalysisBroken("nni_url_clone_inline lost its parameters")
+    dst, src = f.params[0]["n"], f.params[1]["n"]
+    TEXT = ("u_buffer", "u_path", "u_hostname", "u_userinfo", "u_query", "u_fragment")
+    n = 0
+    for t in f.assigns():
+        l = t.node["lhs"]
+        if l.get("k") != "mem" or l["f"] not in TEXT or not (l["b"].get("k") == "var" and l["b"]["n"] == dst):
+            continue
+        rhs = f.expand(t.node["rhs"])
+        while rhs is not None and rhs.get("k") == "cast":
+            rhs = rhs["e"]
+        if rhs is None or rhs.get("k") == "call" or (rhs.get("k") == "asg"):
+            continue        # a fresh allocation
+        n += 1
+        base = rhs
+        while base is not None and base.get("k") == "bin" and base.get("op") in ("+", "-"):
+            base = base["lhs"]
+        while base is not None and base.get("k") in ("cast",):
+            base = base["e"]
+        bvar = base
+        while bvar is not None and bvar.get("k") in ("mem", "idx", "un"):
+            bvar = bvar.get("b") if bvar.get("k") in ("mem", "idx") else bvar.get("e")
+        if bvar is not None and bvar.get("k") == "var" and bvar["n"] == dst:
+            r.ob(f, "%s based on the destination's storage" % show(l))
+        else:
+            ctx.fail(r, f, "%s of the clone points into the source" % l["f"], t.line,
+                     "nni_url_clone_inline sets %s = %s (line %s): the base of that address is not the destination's own buffer, "
+                     "so the clone shares storage with its source and dangles when the source is released" % (show(l), show(rhs)[:70], t.line))
+    if n < 4:
+        raise AnalysisBroken("only %d rebased components found in nni_url_clone_inline" % n)
+
+
+# ---------------------------------------------------------------------------
+# R15: an escape is decoded into a raw byte only when that byte is known not to be NUL
+
+
+def rule_r15(ctx):
+    r = ctx.rule("C19.R15", "T1", "%00 stays escaped: in nni_url_canonify_uri the value decoded from %XX is written into the string as "
+                 "a raw byte only over an edge that excludes 0 (a comparison c >= k with k > 0, c == k with k != 0, or a "
+                 "character-class test that 0 does not pass) -- a membership test with strchr(set, c) is true for c == 0 (it "
+                 "finds the set's own terminator), so %00 would be decoded into a NUL that silently cuts the URL short: path, "
+                 "query and fragment behind it vanish and are no longer validated", floor=1)
+    r.own_opinion = True
+    f = ctx.prog.need("nni_url_canonify_uri", "core/url.c")
+    n = 0
+    for t in f.assigns():
+        rhs = f.expand(t.node["rhs"])
+        if not (t.node["lhs"].get("k") == "var" and t.node.get("op") == "+=" and any(
+                m.get("k") == "call" and m.get("fn") == "url_hex_val" for m in walk(rhs))):
+            continue
+        v = t.node["lhs"]["n"]
+        nonzero = {}
+        for bid, k, atom, val in G.edge_facts(f):
+            a = atom
+            if a.get("k") == "bin" and a["lhs"].get("k") == "var" and a["lhs"]["n"] == v and const_of(a["rhs"]) is not None:
+                cv, op = const_of(a["rhs"]), a["op"]
+                est = (op == ">=" and cv > 0 and val) or (op == ">" and cv >= 0 and val) or (op == "==" and cv != 0 and val) or \
+                      (op == "!=" and cv == 0 and val) or (op == "<" and cv > 0 and not val) or (op == "<=" and cv >= 0 and not val)
+                if est:
+                    nonzero[bid] = k
+            elif val and "__ctype_b_loc" in show(a) and any(m.get("k") == "var" and m["n"] == v for m in walk(a)) and \
+                    any(x in show(a) for x in ("_ISalnum", "_ISalpha", "_ISdigit", "_ISxdigit", "_ISupper", "_ISlower")):
+                nonzero[bid] = k
+
+        def redef(b, i, e, v=v):
+            return e is not None and any(m.get("k") == "asg" and m.get("op") == "=" and m["lhs"].get("k") == "var" and m["lhs"]["n"] == v
+                                         for m in walk(f.expand(e)))
+        seen = f.reach((t.b, t.i + 1), blocked=redef, edge_ok=lambda b, k: not (b in nonzero and nonzero[b] == k))
+        for w in f.assigns():
+            l = w.node["lhs"]
+            wr = f.expand(w.node["rhs"])
+            while wr is not None and wr.get("k") == "cast":
+                wr = wr["e"]
+            if l.get("k") == "idx" and wr is not None and wr.get("k") == "var" and wr["n"] == v:
+                if not (w.b, w.i) in f.reach((t.b, t.i + 1), blocked=redef):
+                    continue
+                n += 1
+                if (w.b, w.i) in seen:
+                    ctx.fail(r, f, "decoded escape written raw without excluding NUL", w.line,
+                             "nni_url_canonify_uri writes the decoded value of an escape into the string (line %s) on a path that "
+                             "has not established that the value is not 0: %%00 becomes a terminator in the middle of the URL"
+                             % w.line)
+                else:
+                    r.ob(f, "decoded escape written raw (line %s) only when known not to be NUL" % w.line)
+    if n < 1:
+        raise AnalysisBroken("nni_url_canonify_uri: no raw write of a decoded escape found")
+
+
 def run(ctx):
     ctx.guard(rule_r1)
     ctx.guard(rule_r2)
@@ -654,3 +754,5 @@ def run(ctx):
     ctx.guard(rule_r11)
     ctx.guard(rule_r12)
     ctx.guard(rule_r13)
+    ctx.guard(rule_r14)
+    ctx.guard(rule_r15)
